@@ -46,6 +46,12 @@ cols = [
     column("minimal", "tw 4:4:4"),
     column("minimal", "tw 4_4_4", picture_bytes=40),
     column("minimal", "tw 4.4.4", picture_bytes=56),
+    # a column using a REAL dimension of a standard format (176 = QSIF/QCIF
+    # width) ahead of tiny custom-sized ones: whatever the header generator
+    # remembers from ranking base video formats for it must not change the
+    # choice made for the later columns
+    column("minimal", "w176", frame_width=176, clean_width=176, picture_bytes=200),
+    column("minimal", "after_w176"),
 ]
 
 
